@@ -69,8 +69,11 @@ def _job(job):
     what = "workbook with %d sheet(s), sheet %d requested, cells %s" % (
         len(vec["book"]), vec["wanted"], [[c["k"] for c in row] for row in (vec["book"][vec["wanted"] - 1] if vec["wanted"] <= len(vec["book"]) else [])])
     try:
-        rows = list(rowio.excel_rows(path, vec["wanted"]))
+        rows, disturbed = core.read_independently(lambda: rowio.excel_rows(path, vec["wanted"]))
         outcome = "rows"
+        if disturbed is not None and disturbed != rows:
+            problems.append("%s: read again beside an abandoned reader and in lockstep with another one, excel_rows returns %r "
+                            "instead of %r" % (what, disturbed, rows))
     except errors.DataFormatError as error:
         rows, outcome = str(error), "DataFormatError"
     except Exception as error:  # noqa
